@@ -81,16 +81,16 @@ Proof.
 Qed.
 
 (* ------------------------------------------------------------------ *)
-(* cos of a rational: the one unsound exact flag *)
+(* cos of a rational before fix commit bd3b9a9: the one unsound exact flag *)
 
-Lemma cos_simple_exact_refuted_lemma : forall Fo,
-  exists a v, real_cos Fo (RSimple a) = Ok (mkEx v true) /\ real_val v <> cos (Q2R a).
+Lemma cos_old_simple_exact_refuted_lemma : forall Fo,
+  exists a v, real_cos_old Fo (RSimple a) = Ok (mkEx v true) /\ real_val v <> cos (Q2R a).
 Proof.
   intro Fo. exists (- ((1 # 2) * pi_model))%Q, (RSimple 0%Q). split.
-  - unfold real_cos, Model.cos_shift.
+  - unfold real_cos_old, Model.cos_shift, cos_shift_ex.
     replace (real_is_zero (RSimple (- ((1 # 2) * pi_model)))) with false
       by (rewrite pi_model_value; reflexivity).
-    unfold real_sin, rat_fn.
+    simpl fst. unfold real_sin_old, real_sin_with, rat_fn.
     assert (Hz : qeq (rat_add (- ((1 # 2) * pi_model)) ((1 # 2) * pi_model)) 0 = true).
     { rewrite pi_model_value. vm_compute. reflexivity. }
     rewrite Hz. reflexivity.
@@ -118,10 +118,21 @@ Proof.
 Qed.
 
 Lemma from_f64_error_R : forall s m e,
-  fl_saturates (FFin s m e) = false ->
-  Rabs (Q2R (from_f64 (FFin s m e)) - fl_R (FFin s m e)) <= / 2 ^ 64.
+  exists v, from_f64 (FFin s m e) = Ok v /\
+            Rabs (Q2R v - fl_R (FFin s m e)) <= / 2 ^ 64.
 Proof.
-  intros s m e H. pose proof (from_f64_error_lemma s m e H) as Hq.
+  intros s m e. destruct (from_f64_total_lemma s m e) as [v [Hv Hq]].
+  exists v. split; [exact Hv|].
+  apply Qle_Rle in Hq. rewrite Q2R_abs, Q2R_minus in Hq.
+  unfold fl_R. eapply Rle_trans; [exact Hq|].
+  unfold Q2R. cbn [Qnum Qden]. right. simpl. lra.
+Qed.
+
+Lemma from_f64_old_error_R : forall s m e,
+  fl_saturates (FFin s m e) = false ->
+  Rabs (Q2R (from_f64_old (FFin s m e)) - fl_R (FFin s m e)) <= / 2 ^ 64.
+Proof.
+  intros s m e H. pose proof (from_f64_old_error_lemma s m e H) as Hq.
   apply Qle_Rle in Hq. rewrite Q2R_abs, Q2R_minus in Hq.
   unfold fl_R. eapply Rle_trans; [exact Hq|].
   unfold Q2R. cbn [Qnum Qden]. right. simpl. lra.
@@ -164,11 +175,10 @@ Section BridgeBudget.
   Hypothesis lipschitz : forall a b, Rabs (fR a - fR b) <= L * Rabs (a - b).
 
   (* oracle hypothesis, at one input x: the answer is a finite number within
-     eps_libm of the real function and of magnitude below 2^64 *)
+     eps_libm of the real function *)
   Definition libm_ok (x : fl) : Prop :=
     exists s m e, fl_of_bits (F (fl_bits x)) = FFin s m e /\
-                  Rabs (fl_R (FFin s m e) - fR (fl_R x)) <= eps_libm /\
-                  Rabs (fl_R (FFin s m e)) < 2 ^ 64.
+                  Rabs (fl_R (FFin s m e) - fR (fl_R x)) <= eps_libm.
 
   (* conversion hypothesis, at one rational q: into_f64 is within delta
      relative of q *)
@@ -177,17 +187,19 @@ Section BridgeBudget.
 
   Theorem bridge_budget : forall q,
     into_ok q -> libm_ok (into_f64 q) ->
-    Rabs (Q2R (bridge F q) - fR (Q2R q)) <= / 2 ^ 64 + eps_libm + L * delta * Rabs (Q2R q).
+    exists v, bridge F q = Ok v /\
+      Rabs (Q2R v - fR (Q2R q)) <= / 2 ^ 64 + eps_libm + L * delta * Rabs (Q2R q).
   Proof.
-    intros q Hin [s [m [e [Hy [Hacc Hsmall]]]]].
+    intros q Hin [s [m [e [Hy Hacc]]]].
     unfold bridge. rewrite Hy.
-    pose proof (from_f64_error_R s m e (not_saturates_of_small s m e Hsmall)) as H1.
+    destruct (from_f64_error_R s m e) as [v [Hv H1]].
+    exists v. split; [exact Hv|].
     pose proof (lipschitz (fl_R (into_f64 q)) (Q2R q)) as H3.
     unfold into_ok in Hin.
     assert (H3' : Rabs (fR (fl_R (into_f64 q)) - fR (Q2R q)) <= L * delta * Rabs (Q2R q)).
     { eapply Rle_trans; [exact H3|]. rewrite Rmult_assoc. apply Rmult_le_compat_l; assumption. }
-    replace (Q2R (from_f64 (FFin s m e)) - fR (Q2R q))
-      with ((Q2R (from_f64 (FFin s m e)) - fl_R (FFin s m e))
+    replace (Q2R v - fR (Q2R q))
+      with ((Q2R v - fl_R (FFin s m e))
             + (fl_R (FFin s m e) - fR (fl_R (into_f64 q)))
             + (fR (fl_R (into_f64 q)) - fR (Q2R q))) by ring.
     eapply Rle_trans; [apply Rabs_triang|].
@@ -268,13 +280,14 @@ Theorem accuracy_partial_sin : forall Fo q,
   exists v, real_fn Fo Fsin (RSimple q) = Ok v /\
             within_budget (real_val (exv v)) (sin (Q2R q)).
 Proof.
-  intros Fo q Hq Hin Hlib. unfold real_fn, real_sin, rat_fn.
+  intros Fo q Hq Hin Hlib. unfold real_fn, real_sin, real_sin_with, rat_fn.
   destruct (qeq q 0) eqn:Hz.
   - eexists. split; [reflexivity|]. simpl. apply budget_of_abs.
     apply Qeq_bool_eq in Hz. rewrite (Qeq_eqR _ _ Hz), Q2R_0, sin_0.
     rewrite Rminus_0_r, Rabs_R0. lra.
-  - eexists. split; [reflexivity|]. simpl. apply budget_of_abs.
-    pose proof (bridge_budget (Fo Fsin) sin 1 (/ 2 ^ 52) (/ 2 ^ 50) ltac:(lra) sin_lipschitz q Hin Hlib) as H.
+  - destruct (bridge_budget (Fo Fsin) sin 1 (/ 2 ^ 52) (/ 2 ^ 50) ltac:(lra) sin_lipschitz q Hin Hlib)
+      as [v [Hv H]].
+    rewrite Hv. eexists. split; [reflexivity|]. simpl. apply budget_of_abs.
     eapply Rle_trans; [exact H|].
     assert (1 * / 2 ^ 50 * Rabs (Q2R q) <= / 2 ^ 50 * 1000).
     { rewrite Rmult_1_l. apply Rmult_le_compat_l; [|exact Hq]. left. apply Rinv_0_lt_compat. lra. }
@@ -289,8 +302,9 @@ Theorem accuracy_partial_atan : forall Fo q,
             within_budget (real_val (exv v)) (atan (Q2R q)).
 Proof.
   intros Fo q Hq Hin Hlib. unfold real_fn, rat_fn. simpl approximate.
-  eexists. split; [reflexivity|]. simpl. apply budget_of_abs.
-  pose proof (bridge_budget (Fo Fatan) atan 1 (/ 2 ^ 52) (/ 2 ^ 50) ltac:(lra) atan_lipschitz q Hin Hlib) as H.
+  destruct (bridge_budget (Fo Fatan) atan 1 (/ 2 ^ 52) (/ 2 ^ 50) ltac:(lra) atan_lipschitz q Hin Hlib)
+    as [v [Hv H]].
+  rewrite Hv. eexists. split; [reflexivity|]. simpl. apply budget_of_abs.
   eapply Rle_trans; [exact H|].
   assert (1 * / 2 ^ 50 * Rabs (Q2R q) <= / 2 ^ 50 * 1000).
   { rewrite Rmult_1_l. apply Rmult_le_compat_l; [|exact Hq]. left. apply Rinv_0_lt_compat. lra. }
@@ -306,8 +320,9 @@ Theorem accuracy_partial_cos : forall Fo q,
   exists v, real_fn Fo Fcos (RSimple q) = Ok v /\
             within_budget (real_val (exv v)) (cos (Q2R q)).
 Proof.
-  intros Fo q Hq Hnz a Hin Hlib. unfold real_fn, real_cos, Model.cos_shift.
-  simpl real_is_zero. rewrite Hnz. fold a. unfold real_sin, rat_fn.
+  intros Fo q Hq Hnz a Hin Hlib. unfold real_fn, real_cos, Model.cos_shift, cos_shift_ex.
+  simpl real_is_zero. rewrite Hnz. simpl fst. simpl snd. fold a.
+  unfold real_sin, real_sin_with, rat_fn.
   assert (Ha : Q2R a = Q2R q + / 2 * Q2R pi_model).
   { unfold a. rewrite (Qeq_eqR _ _ (rat_add_correct q ((1 # 2) * pi_model))).
     rewrite Q2R_plus, Q2R_mult, Q2R_half. lra. }
@@ -322,10 +337,11 @@ Proof.
   - eexists. split; [reflexivity|]. simpl. apply budget_of_abs.
     apply Qeq_bool_eq in Hz. rewrite (Qeq_eqR _ _ Hz), Q2R_0, sin_0 in Hcs.
     rewrite Q2R_0. lra.
-  - eexists. split; [reflexivity|]. simpl. apply budget_of_abs.
-    pose proof (bridge_budget (Fo Fsin) sin 1 (/ 2 ^ 52) (/ 2 ^ 50) ltac:(lra) sin_lipschitz a Hin Hlib) as H.
-    replace (Q2R (bridge (Fo Fsin) a) - cos (Q2R q))
-      with ((Q2R (bridge (Fo Fsin) a) - sin (Q2R a)) + (sin (Q2R a) - cos (Q2R q))) by ring.
+  - destruct (bridge_budget (Fo Fsin) sin 1 (/ 2 ^ 52) (/ 2 ^ 50) ltac:(lra) sin_lipschitz a Hin Hlib)
+      as [v [Hv H]].
+    rewrite Hv. eexists. split; [reflexivity|]. simpl. apply budget_of_abs.
+    replace (Q2R v - cos (Q2R q))
+      with ((Q2R v - sin (Q2R a)) + (sin (Q2R a) - cos (Q2R q))) by ring.
     eapply Rle_trans; [apply Rabs_triang|].
     assert (1 * / 2 ^ 50 * Rabs (Q2R a) <= / 2 ^ 50 * 1002).
     { rewrite Rmult_1_l. apply Rmult_le_compat_l; [|exact Habs]. left. apply Rinv_0_lt_compat. lra. }
@@ -363,9 +379,10 @@ Proof.
   - unfold in_domain, q_edge, Q2R. cbn [Qnum Qden]. split; interval with (i_prec 120).
   - unfold real_fn, rat_fn in Hv. simpl approximate in Hv.
     replace (qlt 1 q_edge || qlt q_edge (-1 # 1))%bool with false in Hv by reflexivity.
-    simpl in Hv. injection Hv as <-. simpl in Hb.
-    unfold bridge in Hb. rewrite into_f64_edge, HF in Hb.
-    replace (from_f64 (fl_of_bits 0)) with (0 # 18446744073709551615)%Q in Hb by (vm_compute; reflexivity).
+    unfold bridge in Hv. rewrite into_f64_edge, HF in Hv.
+    replace (from_f64 (fl_of_bits 0)) with (Ok (0 # 18446744073709551615)%Q : res Q) in Hv
+      by (vm_compute; reflexivity).
+    cbn [bind] in Hv. injection Hv as <-. simpl in Hb.
     unfold within_budget, true_fn in Hb.
     pose proof acos_edge_true as [Hl Hu].
     replace (Q2R (0 # 18446744073709551615)) with 0 in Hb by (unfold Q2R; simpl; lra).
@@ -374,27 +391,56 @@ Proof.
     rewrite Rmax_left in Hb by lra. lra.
 Qed.
 
+(* ------------------------------------------------------------------ *)
+(* the bridge since fix commit d752faf: whatever finite value libm answers is
+   converted faithfully (any magnitude); a non-finite answer is an error *)
+
+Theorem bridge_faithful_lemma : forall F q s m e,
+  fl_of_bits (F (fl_bits (into_f64 q))) = FFin s m e ->
+  exists v, bridge F q = Ok v /\ Rabs (Q2R v - fl_R (FFin s m e)) <= / 2 ^ 64.
+Proof.
+  intros F q s m e Hy. unfold bridge. rewrite Hy. apply from_f64_error_R.
+Qed.
+
+Theorem bridge_nonfinite_lemma : forall F q,
+  (fl_of_bits (F (fl_bits (into_f64 q))) = FNaN \/
+   exists s, fl_of_bits (F (fl_bits (into_f64 q))) = FInf s) ->
+  bridge F q = Err EOther.
+Proof.
+  intros F q [H|[s H]]; unfold bridge; rewrite H; reflexivity.
+Qed.
+
+(* atan ((10^400+1)/10^400): into_f64 is inf/inf = NaN, libm keeps NaN, and the
+   result is now the error ValueTooLarge (it was the number 0) *)
+Theorem nan_is_error_lemma : forall Fo,
+  fl_of_bits (Fo Fatan (fl_bits FNaN)) = FNaN ->
+  real_fn Fo Fatan (RSimple q_big_near_one) = Err EOther.
+Proof.
+  intros Fo HF. unfold real_fn, rat_fn. simpl approximate.
+  rewrite (bridge_nonfinite_lemma (Fo Fatan) q_big_near_one); [reflexivity|].
+  left. rewrite into_f64_big_near_one_is_nan. exact HF.
+Qed.
+
+(* ------------------------------------------------------------------ *)
+(* documentation of the repaired defects: the functions before the commits *)
+
 (* (2) saturation: sinh 46.  Whatever finite value >= 2^64 (or +infinity)
-   libm returns, the result is exactly 2^64; the true value is 4.7e19 *)
+   libm returned, from_f64_old made it exactly 2^64; the true value is 4.7e19 *)
 Lemma sinh46_true : 4 * 10 ^ 19 < sinh 46.
 Proof. unfold sinh. interval with (i_prec 64). Qed.
 
-Theorem saturation_refuted_lemma : forall Fo y,
-  fl_of_bits (Fo Fsinh (fl_bits (into_f64 46))) = y ->
+Theorem saturation_old_refuted_lemma : forall y,
   (y = FInf false \/ exists m e, y = FFin false m e /\ fl_saturates y = true) ->
-  exists v, real_fn Fo Fsinh (RSimple 46) = Ok (mkEx (RSimple v) false) /\
-            Q2R v = 2 ^ 64 /\ ~ within_budget (Q2R v) (true_fn Fsinh (Q2R 46)).
+  Q2R (from_f64_old y) = 2 ^ 64 /\ ~ within_budget (Q2R (from_f64_old y)) (sinh 46).
 Proof.
-  intros Fo y Hy Hcls. unfold real_fn, rat_fn. simpl approximate. unfold bridge. rewrite Hy.
-  eexists. split; [reflexivity|].
-  assert (Hv : Q2R (from_f64 y) = 2 ^ 64).
+  intros y Hcls.
+  assert (Hv : Q2R (from_f64_old y) = 2 ^ 64).
   { destruct Hcls as [->|[m [e [-> Hs]]]].
-    - rewrite (Qeq_eqR _ _ (from_f64_inf false)). rewrite Q2R_inject_Z. simpl sgnZ.
+    - rewrite (Qeq_eqR _ _ (from_f64_old_inf false)). rewrite Q2R_inject_Z. simpl sgnZ.
       rewrite pow_IZR. reflexivity.
-    - rewrite (Qeq_eqR _ _ (from_f64_saturation_lemma false m e Hs)). rewrite Q2R_inject_Z.
+    - rewrite (Qeq_eqR _ _ (from_f64_old_saturation_lemma false m e Hs)). rewrite Q2R_inject_Z.
       simpl sgnZ. rewrite pow_IZR. reflexivity. }
-  split; [exact Hv|]. cbn [exv]. rewrite Hv. unfold within_budget, true_fn.
-  replace (Q2R 46) with 46 by (unfold Q2R; simpl; lra).
+  split; [exact Hv|]. rewrite Hv. unfold within_budget.
   pose proof sinh46_true as Ht.
   assert (H64 : (2:R) ^ 64 < 2 * 10 ^ 19) by (interval with (i_prec 64)).
   intro Hb. rewrite (Rabs_right (sinh 46)) in Hb by lra.
@@ -402,37 +448,37 @@ Proof.
   rewrite Rabs_left in Hb by lra. lra.
 Qed.
 
-(* (3) inf/inf: atan ((10^400+1)/10^400).  into_f64 is NaN; any libm maps NaN
-   to NaN; from_f64 maps NaN to 0; the true value is pi/4 *)
-Theorem nan_refuted_lemma : forall Fo,
-  fl_of_bits (Fo Fatan (fl_bits FNaN)) = FNaN ->
-  exists v, real_fn Fo Fatan (RSimple q_big_near_one) = Ok (mkEx (RSimple v) false) /\
-            Q2R v = 0 /\ ~ within_budget (Q2R v) (true_fn Fatan (Q2R q_big_near_one)).
+(* (3) NaN became the number 0 while atan of the argument is pi/4 *)
+Theorem nan_old_refuted_lemma :
+  Q2R (from_f64_old FNaN) = 0 /\ ~ within_budget 0 (atan (Q2R q_big_near_one)).
 Proof.
-  intros Fo HF. unfold real_fn, rat_fn. simpl approximate. unfold bridge.
-  rewrite into_f64_big_near_one_is_nan, HF, from_f64_nan_is_zero.
-  eexists. split; [reflexivity|].
+  rewrite from_f64_old_nan_is_zero.
   assert (H0 : Q2R (0 # 18446744073709551615) = 0) by (unfold Q2R; simpl; lra).
-  split; [exact H0|]. cbn [exv]. rewrite H0. unfold within_budget, true_fn.
+  split; [exact H0|]. unfold within_budget.
   assert (Ht : 3 / 4 < atan (Q2R q_big_near_one) < 1).
   { unfold q_big_near_one, Q2R. cbn [Qnum Qden]. split; interval with (i_prec 1500). }
   intro Hb. rewrite Rminus_0_l, Rabs_Ropp in Hb.
   rewrite (Rabs_right (atan _)) in Hb by lra. rewrite Rmax_left in Hb by lra. lra.
 Qed.
 
-(* (4) multiples of pi beyond the cut-off: sin (2^70 pi) = 0 is a documented
-   exact point, but whatever libm does the result is marked approximate *)
-Theorem sin_special_unbounded_refuted_lemma :
+(* (4) multiples of pi beyond 2^64/6: sin (2^70 pi) = 0 is a documented exact
+   point, but the old table skipped it and whatever libm did the result was
+   marked approximate *)
+Theorem sin_old_special_unbounded_refuted_lemma :
   exists (z : Z) (n : Q), (n == z # 6)%Q /\ good_residue (Z.abs_N z) = true /\
-    forall Fo, exists v, real_sin Fo (RPi n) = Ok (mkEx v false).
+    forall Fo, exists r, real_sin_old Fo (RPi n) = r /\
+      forall v, r = Ok v -> exb v = false.
 Proof.
   exists (6 * 2 ^ 70)%Z, (2 ^ 70 # 1)%Q. split; [reflexivity|]. split; [vm_compute; reflexivity|].
-  intro Fo. unfold real_sin.
+  intro Fo. eexists. split; [reflexivity|].
+  intros v. unfold real_sin_old, real_sin_with.
   replace (qlt (2 ^ 70 # 1) 0) with false by reflexivity.
-  rewrite sin_table_2_70_none. unfold rat_fn.
+  rewrite sin_table_old_2_70_none. unfold rat_fn.
   assert (Hq : qeq ((2 ^ 70 # 1) * pi_model) 0 = false).
   { rewrite pi_model_value. vm_compute. reflexivity. }
-  rewrite Hq. simpl. eexists. reflexivity.
+  rewrite Hq.
+  destruct (bridge (Fo Fsin) ((2 ^ 70 # 1) * pi_model)); cbn [bind]; intro H; try discriminate.
+  injection H as <-. reflexivity.
 Qed.
 
 (* ------------------------------------------------------------------ *)
@@ -460,5 +506,5 @@ Proof.
       replace (fl_valQ (FFin false 8636562708039152 (-54))) with (8636562708039152 # 18014398509481984)%Q
         by (vm_compute; reflexivity).
       unfold Q2R. cbn [Qnum Qden]. field. }
-    rewrite Hy. split; interval with (i_prec 100).
+    rewrite Hy. interval with (i_prec 100).
 Qed.
